@@ -51,16 +51,17 @@ theorem incOffsetN_run : ∀ (n : Nat) (gs : GS), incOffsetN n gs = .ok ((), bum
     rfl
 
 theorem bumpN_facts : ∀ (n : Nat) (gs : GS), (bumpN n gs).offset = gs.offset + n ∧ gs.size ≤ (bumpN n gs).size ∧
-    (bumpN n gs).labelCount = gs.labelCount ∧ (0 < n → gs.offset + n ≤ (bumpN n gs).size) := by
+    (bumpN n gs).labelCount = gs.labelCount ∧ (0 < n → gs.offset + n ≤ (bumpN n gs).size) ∧
+    (bumpN n gs).constMap = gs.constMap := by
   intro n
   induction n with
   | zero => intro gs; simp [bumpN]
   | succ n ih =>
     intro gs
     unfold bumpN
-    obtain ⟨h1, h2, h3, h4⟩ := ih { gs with offset := gs.offset + 1, size := max gs.size (gs.offset + 1) }
-    simp only at h1 h2 h3 h4
-    refine ⟨by omega, by omega, h3, fun _ => ?_⟩
+    obtain ⟨h1, h2, h3, h4, h5⟩ := ih { gs with offset := gs.offset + 1, size := max gs.size (gs.offset + 1) }
+    simp only at h1 h2 h3 h4 h5
+    refine ⟨by omega, by omega, h3, fun _ => ?_, h5⟩
     by_cases hn : 0 < n
     · have := h4 hn; omega
     · have : n = 0 := by omega
@@ -243,17 +244,29 @@ theorem genExpr_call_inv (ctx : Ctx) (sys : Int) (f : String) (args : List AExpr
 
 /-- Generators preserve the frame offset and only grow the frame size and the label counter. -/
 def Eff (gs gs' : GS) : Prop :=
-  gs'.offset = gs.offset ∧ gs.size ≤ gs'.size ∧ gs.labelCount ≤ gs'.labelCount
+  gs'.offset = gs.offset ∧ gs.size ≤ gs'.size ∧ gs.labelCount ≤ gs'.labelCount ∧
+  (∀ e ∈ gs.constMap, e ∈ gs'.constMap)
 
-theorem Eff.refl (gs : GS) : Eff gs gs := ⟨rfl, Nat.le_refl _, Nat.le_refl _⟩
+theorem Eff.refl (gs : GS) : Eff gs gs := ⟨rfl, Nat.le_refl _, Nat.le_refl _, fun _ h => h⟩
 
 theorem Eff.trans {a b c : GS} (h1 : Eff a b) (h2 : Eff b c) : Eff a c :=
-  ⟨by rw [h2.1, h1.1], Nat.le_trans h1.2.1 h2.2.1, Nat.le_trans h1.2.2 h2.2.2⟩
+  ⟨by rw [h2.1, h1.1], Nat.le_trans h1.2.1 h2.2.1, Nat.le_trans h1.2.2.1 h2.2.2.1,
+   fun e he => h2.2.2.2 e (h1.2.2.2 e he)⟩
 
 theorem genConst_eff (reg : Reg) (v : CInt) (gs gs' : GS) (code : Code) (h : genConst reg v gs = .ok (code, gs')) :
     Eff gs gs' := by
-  obtain ⟨h1, h2, h3, _⟩ := genConst_inv reg v gs gs' code h
-  exact ⟨h1, by omega, by omega⟩
+  obtain ⟨h1, h2, h3, h4⟩ := genConst_inv reg v gs gs' code h
+  refine ⟨h1, by omega, by omega, ?_⟩
+  by_cases hs : v.toInt > -65536 ∧ v.toInt < 65536
+  · rw [genConst_small reg v gs hs] at h
+    simp only [Except.ok.injEq, Prod.mk.injEq] at h
+    rw [← h.2]; exact fun _ he => he
+  · unfold genConst at h
+    rw [if_neg hs] at h
+    obtain ⟨label, gs1, hp, hr⟩ := bind_ok _ _ _ _ h
+    simp only [pure, StateT.pure, Except.pure, Except.ok.injEq, Prod.mk.injEq] at hr
+    rw [← hr.2]
+    exact (genConstPool_inv _ _ _ _ hp).2.2.2.2
 
 theorem genExpr_neg (ctx : Ctx) (e : AExpr) (reg : Reg) (gs : GS) :
     genExpr ctx (.un .neg e none) reg gs = .ok ([], gs) := by
@@ -269,11 +282,11 @@ theorem genOperands_eff (ctx : Ctx) (l r : AExpr)
   cases hn : needsAReg r with
   | true =>
     obtain ⟨cr, gs1, cl, gs2, h1, h2, _, h4⟩ := hA hn
-    obtain ⟨a1, a2, a3⟩ := ihra _ _ _ h1
-    obtain ⟨b1, b2, b3⟩ := ihl _ _ _ h2
+    obtain ⟨a1, a2, a3, a4⟩ := ihra _ _ _ h1
+    obtain ⟨b1, b2, b3, b4⟩ := ihl _ _ _ h2
     subst h4
-    simp only at b1 b2 b3
-    exact ⟨rfl, by simp only; omega, by simp only; omega⟩
+    simp only at b1 b2 b3 b4
+    exact ⟨rfl, by simp only; omega, by simp only; omega, fun e he => b4 e (a4 e he)⟩
   | false =>
     obtain ⟨cl, gs1, cr, h1, h2, _⟩ := hB hn
     exact (ihl _ _ _ h1).trans (ihrb _ _ _ h2)
@@ -298,12 +311,13 @@ theorem genExpr_eff (ctx : Ctx) (e : AExpr) (reg : Reg) :
     (motive_1 := fun e reg => ∀ (gs : GS) (code : Code) (gs' : GS), genExpr ctx e reg gs = .ok (code, gs') → Eff gs gs')
     (motive_2 := fun args p s => ∀ (gs : GS) (code : Code) (gs' : GS), loadActuals ctx args p s gs = .ok (code, gs') → Eff gs gs')
     (motive_3 := fun args => ∀ (gs : GS) (code : Code) (gs' : GS), genCallActuals ctx args gs = .ok (code, gs') →
-        gs'.offset = gs.offset + countCalls args ∧ gs.size ≤ gs'.size ∧ gs.labelCount ≤ gs'.labelCount)
+        gs'.offset = gs.offset + countCalls args ∧ gs.size ≤ gs'.size ∧ gs.labelCount ≤ gs'.labelCount ∧
+        (∀ e ∈ gs.constMap, e ∈ gs'.constMap))
   -- num, bool, str, name
   · intro v c reg gs code gs' h; rw [genExpr_num] at h; exact genConst_eff _ _ _ _ _ h
   · intro b c reg gs code gs' h; rw [genExpr_bool] at h; exact genConst_eff _ _ _ _ _ h
   · intro bs reg gs code gs' h; rw [genExpr_str] at h
-    obtain ⟨h1, h2, h3⟩ := genString_inv _ _ _ _ _ h; exact ⟨h1, by omega, by omega⟩
+    obtain ⟨h1, h2, h3, h4⟩ := genString_inv _ _ _ _ _ h; exact ⟨h1, by omega, by omega, by rw [h4]; exact fun _ he => he⟩
   · intro n reg v gs code gs' h; rw [genExpr_name_const] at h; exact genConst_eff _ _ _ _ _ h
   · intro n reg gs code gs' h
     obtain ⟨_, _, _, h3⟩ := genExpr_name_inv _ _ _ _ _ _ h; subst h3; exact Eff.refl _
@@ -317,20 +331,24 @@ theorem genExpr_eff (ctx : Ctx) (e : AExpr) (reg : Reg) :
   · intro sys f args x ih3 ih2 gs code gs' h
     obtain ⟨kind, _, hs⟩ := genExpr_call_inv _ _ _ _ _ _ _ _ h
     obtain ⟨c1, gs1, c2, gs2, h1, h2, _, h4⟩ := callSeq_inv _ _ _ _ _ _ _ _ hs
-    obtain ⟨a1, a2, a3⟩ := ih3 _ _ _ h1
-    obtain ⟨b1, b2, b3, _⟩ := bumpN_facts (countCalls args) { gs1 with offset := gs.offset }
-    obtain ⟨c1', c2', c3'⟩ := ih2 _ _ _ _ _ h2
+    obtain ⟨a1, a2, a3, a4⟩ := ih3 _ _ _ h1
+    obtain ⟨b1, b2, b3, _, b5⟩ := bumpN_facts (countCalls args) { gs1 with offset := gs.offset }
+    obtain ⟨c1', c2', c3', c4'⟩ := ih2 _ _ _ _ _ h2
     subst h4
-    simp only at b1 b2 b3 c1' c2' c3'
-    refine ⟨rfl, ?_, ?_⟩
+    simp only at b1 b2 b3 b5 c1' c2' c3' c4'
+    refine ⟨rfl, ?_, ?_, ?_⟩
     · simp only; omega
     · simp only; omega
+    · intro e he
+      apply c4'
+      rw [b5]
+      exact a4 e he
   -- un const, not, neg
   · intro op e reg v gs code gs' h; rw [genExpr_un_const] at h; exact genConst_eff _ _ _ _ _ h
   · intro e reg ih gs code gs' h
     obtain ⟨ce, h1, _⟩ := genExpr_not_inv _ _ _ _ _ _ h
-    obtain ⟨a1, a2, a3⟩ := ih _ _ _ h1
-    exact ⟨a1, a2, by simp only at a3; omega⟩
+    obtain ⟨a1, a2, a3, a4⟩ := ih _ _ _ h1
+    exact ⟨a1, a2, by simp only at a3; omega, a4⟩
   · intro e reg gs code gs' h
     rw [genExpr_neg] at h
     simp only [Except.ok.injEq, Prod.mk.injEq] at h
@@ -347,27 +365,27 @@ theorem genExpr_eff (ctx : Ctx) (e : AExpr) (reg : Reg) :
   -- and, or
   · intro l r reg ihl ihr gs code gs' h
     obtain ⟨cl, gs1, cr, h1, h2, _⟩ := genExpr_and_inv _ _ _ _ _ _ _ h
-    obtain ⟨a1, a2, a3⟩ := ihl _ _ _ h1
-    obtain ⟨b1, b2, b3⟩ := ihr _ _ _ h2
-    simp only at a1 a2 a3
-    exact ⟨by omega, by omega, by omega⟩
+    obtain ⟨a1, a2, a3, a4⟩ := ihl _ _ _ h1
+    obtain ⟨b1, b2, b3, b4⟩ := ihr _ _ _ h2
+    simp only at a1 a2 a3 a4
+    exact ⟨by omega, by omega, by omega, fun e he => b4 e (a4 e he)⟩
   · intro l r reg ihl ihr gs code gs' h
     obtain ⟨cl, gs1, cr, h1, h2, _⟩ := genExpr_or_inv _ _ _ _ _ _ _ h
-    obtain ⟨a1, a2, a3⟩ := ihl _ _ _ h1
-    obtain ⟨b1, b2, b3⟩ := ihr _ _ _ h2
-    simp only at a1 a2 a3
-    exact ⟨by omega, by omega, by omega⟩
+    obtain ⟨a1, a2, a3, a4⟩ := ihl _ _ _ h1
+    obtain ⟨b1, b2, b3, b4⟩ := ihr _ _ _ h2
+    simp only at a1 a2 a3 a4
+    exact ⟨by omega, by omega, by omega, fun e he => b4 e (a4 e he)⟩
   -- eq, ls
   · intro l r reg ihl ihra ihrb gs code gs' h
     obtain ⟨c, gs1, h1, h2, _⟩ := genExpr_eq_inv _ _ _ _ _ _ _ h
-    obtain ⟨a1, a2, a3⟩ := eqOperand_eff ctx l r _ _ ihl ihra ihrb _ _ _ h1
+    obtain ⟨a1, a2, a3, a4⟩ := eqOperand_eff ctx l r _ _ ihl ihra ihrb _ _ _ h1
     subst h2
-    exact ⟨a1, a2, by simp only; omega⟩
+    exact ⟨a1, a2, by simp only; omega, a4⟩
   · intro l r reg ihl ihra ihrb gs code gs' h
     obtain ⟨c, gs1, h1, h2, _⟩ := genExpr_ls_inv _ _ _ _ _ _ _ h
-    obtain ⟨a1, a2, a3⟩ := eqOperand_eff ctx l r _ _ ihl ihra ihrb _ _ _ h1
+    obtain ⟨a1, a2, a3, a4⟩ := eqOperand_eff ctx l r _ _ ihl ihra ihrb _ _ _ h1
     subst h2
-    exact ⟨a1, a2, by simp only; omega⟩
+    exact ⟨a1, a2, by simp only; omega, a4⟩
   -- other operators: nothing generated
   · intro op l r reg h1 h2 h3 h4 h5 h6 gs code gs' h
     unfold genExpr at h
@@ -395,17 +413,17 @@ theorem genExpr_eff (ctx : Ctx) (e : AExpr) (reg : Reg) :
     rw [← h.2]; simp [countCalls]
   · intro a as hc ih1 ih gs code gs' h
     rcases genCallActuals_cons_inv _ _ _ _ _ _ h with ⟨_, c, gs1, cs, h1, h2, _⟩ | ⟨hc', _⟩
-    · obtain ⟨a1, a2, a3⟩ := ih1 _ _ _ h1
-      obtain ⟨b1, b2, b3⟩ := ih _ _ _ h2
-      simp only at b1 b2 b3
+    · obtain ⟨a1, a2, a3, a4⟩ := ih1 _ _ _ h1
+      obtain ⟨b1, b2, b3, b4⟩ := ih _ _ _ h2
+      simp only at b1 b2 b3 b4
       simp only [countCalls, hc, if_true]
-      exact ⟨by omega, by omega, by omega⟩
+      exact ⟨by omega, by omega, by omega, fun e he => b4 e (a4 e he)⟩
     · rw [hc'] at hc; simp at hc
   · intro a as hc ih gs code gs' h
     rcases genCallActuals_cons_inv _ _ _ _ _ _ h with ⟨hc', _⟩ | ⟨_, h1⟩
     · exact absurd hc' hc
-    · obtain ⟨b1, b2, b3⟩ := ih _ _ _ h1
+    · obtain ⟨b1, b2, b3, b4⟩ := ih _ _ _ h1
       simp only [countCalls, hc, Bool.false_eq_true, if_false]
-      exact ⟨by omega, b2, b3⟩
+      exact ⟨by omega, b2, b3, b4⟩
 
 end Hex.Xcmp
